@@ -63,7 +63,7 @@ def main():
                 elif viol:
                     print(f"OTHER  {m['name']}: caught, but not by the expected obligation {m['expect']}: {viol[0].split('obligation=')[1][:110]}")
                 else:
-                    print(f"MISSED {m['name']} (exit {r.returncode}) {r.stdout[-300:]}"); bad += 1
+                    print(f"MISSED {m['name']} (exit {r.returncode}) {r.stdout[-300:]} {r.stderr[-400:]}"); bad += 1
             finally:
                 open(path, "w").write(src)
     finally:
